@@ -55,9 +55,9 @@ impl Client {
         storage.init_genesis_block(chain.genesis_block());
         let peers = Arc::new(Peers::new(max_outbound, CHECK_POINT_INTERVAL, storage.get_last_check_point()));
         let mut lc = LightClientProtocol::new(storage.clone(), peers.clone(), consensus.clone());
-        lc.set_mmr_activated_epoch(0);
+        lc.set_mmr_activated_epoch(chain.act);
         lc.set_last_n_blocks(last_n);
-        Client { storage, peers, lc, nc: Ctx::new(SupportProtocols::LightClient), consensus: consensus.clone(), mmr_activated_epoch: 0, genesis: chain.genesis_block() }
+        Client { storage, peers, lc, nc: Ctx::new(SupportProtocols::LightClient), consensus: consensus.clone(), mmr_activated_epoch: chain.act, genesis: chain.genesis_block() }
     }
 
     fn collect(&self, panicked: bool, peer: PeerIndex) -> Outcome {
@@ -264,6 +264,8 @@ pub(crate) fn mmr_oracle(last: &VerifiableHeader, proof: &packed::HeaderDigestVe
     let r = catch(|| {
         let root = last.parent_chain_root();
         let end: u64 = root.end_number().unpack();
+        // a chain root whose MMR size does not fit u64, or a leaf beyond it, cannot be proven
+        if end >= u64::MAX / 2 || headers.iter().any(|h| h.header().number() > end) { return 1; }
         let size = leaf_index_to_mmr_size(end);
         let items: Vec<packed::HeaderDigest> = proof.clone().into_iter().collect();
         let p = MMRProof::new(size, items);
